@@ -76,6 +76,8 @@ pub struct VoiceOpts {
     pub regex_root: bool,
     pub dur_scale: f64,
     pub shape: f64, // bound on sum_{m>=1} |c_m| of static spectral means
+    /// window ranges in [POSITION] end at the last digit (the separating newline is outside)
+    pub win_tight: bool,
 }
 
 pub const WINDOW_SETS: [&[&[f64]]; 5] = [
@@ -113,6 +115,7 @@ impl VoiceOpts {
             regex_root: rng.chance(0.1),
             dur_scale: *rng.pick(&[1.0, 1.0, 3.0]),
             shape: 1.0,
+            win_tight: rng.chance(0.4),
         }
     }
     /// small and fast: for interpreters (Miri) and exhaustive histories
@@ -137,14 +140,15 @@ impl VoiceOpts {
             regex_root: false,
             dur_scale: 0.3,
             shape: 1.0,
+            win_tight: false,
         }
     }
     pub fn describe(&self) -> String {
         format!(
-            "streams={} nstate={} stage={} ln_gain={} mcp={} lpf={} win=({},{}) gv=({},{}) rate={} fp={} alpha={} depth={} transparent={} quote={} regex_root={}",
+            "streams={} nstate={} stage={} ln_gain={} mcp={} lpf={} win=({},{}) gv=({},{}) rate={} fp={} alpha={} depth={} transparent={} quote={} regex_root={} win_tight={}",
             self.nstreams, self.nstate, self.stage, self.ln_gain as u8, self.mcp_len, self.lpf_len,
             self.win_mcp, self.win_lf0, self.gv_mcp as u8, self.gv_lf0 as u8, self.rate, self.fperiod,
-            self.alpha, self.max_depth, self.transparent as u8, self.quote_mode, self.regex_root as u8
+            self.alpha, self.max_depth, self.transparent as u8, self.quote_mode, self.regex_root as u8, self.win_tight as u8
         )
     }
 }
@@ -618,7 +622,15 @@ pub fn write_hooked(spec: &VoiceSpec, hook: &mut dyn FnMut(&str, String) -> Vec<
                 w.len(),
                 w.iter().map(|c| fmt_f64(*c)).collect::<Vec<_>>().join(" ")
             );
-            rs.push(put(&mut data, &hook(&format!("STREAM_WIN[{}]#{}", s.name, wi), txt)));
+            let bytes = hook(&format!("STREAM_WIN[{}]#{}", s.name, wi), txt);
+            if spec.opts.win_tight && bytes.last() == Some(&b'\n') && bytes.len() > 1 {
+                // range covers the text up to its last digit; the newline follows outside of it
+                let r = put(&mut data, &bytes[..bytes.len() - 1]);
+                data.push(b'\n');
+                rs.push(r);
+            } else {
+                rs.push(put(&mut data, &bytes));
+            }
         }
         pos.push(format!("STREAM_WIN[{}]:{}", s.name, rs.join(",")));
     }
